@@ -221,6 +221,22 @@ def suite_jit(ctx, core):
             if (err > bound).any():
                 idx = tuple(int(i) for i in np.argwhere(err > bound)[0])
                 bad.append((shp, comp, idx, r[comp][idx], ex[idx]))
+        # the operator is linear in the coefficients: scaling eta and zeta
+        # by a power of two (tiny / huge cells, weak conductivities) scales
+        # the result by exactly that power
+        for p2 in (-90, 70):
+            r2 = [np.zeros(s, dtype=complex, order='F') for s in (sx, sy, sz)]
+            core.amat_x(*r2, *[np.asfortranarray(a) for a in e],
+                        *[np.asfortranarray(a*2.0**p2) for a in eta],
+                        np.asfortranarray(zeta*2.0**p2), *h)
+            if not all(np.array_equal(a2, a*2.0**p2) for a2, a in zip(r2, r)):
+                bad.append((shp, 'scaling', p2))
+                ctx.violation(
+                    'operator-not-linear-in-coefficients',
+                    f'compiled amat_x on shape {shp}: scaling eta and zeta by '
+                    f'2^{p2} does not scale A e by exactly 2^{p2}',
+                    {'shape': list(shp), 'power': p2})
+                break
         ctx.count(key=('jit', shp, t))
     ctx.cov['jit_worst_error_over_bound'] = worst
     ctx.oblige('correspondence: compiled amat_x == its Python source within '
